@@ -124,3 +124,33 @@ theorem drain_perm : ∀ fuel stack acc r, stackWF stack = true → drain fuel s
         exact (List.reverse_perm _).flatMap_right _
 
 end TsV.TargetOs
+
+namespace TsV.TargetOs
+open TsV.Syn
+
+theorem drainTop_isSome (m : Meta) : (drainTop m).isSome := by
+  unfold drainTop
+  apply drain_isSome; simp [stackSize]
+
+theorem yielded_isSome (attrs : List Attr) : (yielded attrs).isSome := by
+  unfold yielded
+  have : ∀ (items : List Meta) acc, (items.foldl yieldStep (some acc)).isSome := by
+    intro items
+    induction items with
+    | nil => intro acc; simp
+    | cons m ms ih =>
+      intro acc
+      obtain ⟨r, hr⟩ := Option.isSome_iff_exists.mp (drainTop_isSome m)
+      simp only [List.foldl_cons, yieldStep, hr]
+      exact ih _
+  exact this _ _
+
+/-- the stack walk never runs out of fuel: `accept_target_os` always answers -/
+theorem accept_isSome (attrs : List Attr) (T : List Str) : (accept attrs T).isSome := by
+  unfold accept
+  split
+  · rfl
+  · obtain ⟨ys, hys⟩ := Option.isSome_iff_exists.mp (yielded_isSome attrs)
+    simp [hys]
+
+end TsV.TargetOs
